@@ -78,6 +78,63 @@ def validator_guards(ctx, prog, rid):
     em = ctx.body(rid, 'coherence::embedding_matches_token')
     r = flow.render(flow.Origin(em, stop_at_vars=True).of_local(0))
     ctx.inst(rid, em.short, 'compares the digest of the payload with the token\'s digest', 'digest_embedding(arg:embedding)' in r and 'VectorCoherenceToken.digest' in r, 'returns %s' % r[:140])
+    # Which bits are hashed at all (not the collision behaviour of the mixing, which stays undecided): the digest is the only thing that ties a payload to a token, so a
+    # copy that differs from the stored vector in ANY bit must be able to change it. Every f32 lane read in digest_embedding is a lane of the payload itself (no rounding /
+    # scaling before to_bits) and travels from f32::to_bits to the mixing call through lossless steps only: widening, `<< 32` into the upper half, `|` of two halves.
+    # A mask, right shift, narrowing cast or arithmetic on that way makes payloads that differ in the dropped bits indistinguishable: Match for a poked / foreign copy.
+    dg = ctx.body(rid, 'coherence::digest_embedding')
+    dof = flow.Origin(dg, max_depth=24)
+    lanes = [c for c in dg.calls if c.callee and flow.short(c.callee) == 'f32::to_bits']
+    clean, lossy = set(), []
+
+    def _down(tree, ops, consumer):
+        t = tree[0]
+        if t == 'call':
+            c_ = tree[3] if len(tree) > 3 else None
+            if c_ is not None and c_.callee and flow.short(c_.callee) == 'f32::to_bits':
+                if ops:
+                    lossy.append((c_, ops[0], consumer))
+                else:
+                    clean.add(id(c_))
+            return   # any other call is a consumer of its own arguments
+        if t == 'phi':
+            for a in tree[1]:
+                _down(a, ops, consumer)
+        elif t == 'cast':
+            _down(tree[1], ops if str(tree[2]) in ('u64', 'u128', 'usize') else ops + ['cast to %s' % tree[2]], consumer)
+        elif t == 'bin':
+            if tree[1] == 'BitOr':
+                _down(tree[2], ops, consumer)
+                _down(tree[3], ops, consumer)
+            elif tree[1] in ('Shl', 'ShlUnchecked') and tree[3][0] == 'const' and tree[3][2] is not None and 0 <= tree[3][2] <= 32:
+                _down(tree[2], ops, consumer)
+            else:
+                op_ = '%s %s' % (tree[1], flow.render(tree[3])[:24]) if tree[3][0] == 'const' else tree[1]
+                _down(tree[2], ops + [op_], consumer)
+                _down(tree[3], ops + [op_], consumer)
+        elif t == 'un':
+            _down(tree[2], ops + [tree[1]], consumer)
+        elif t in ('field', 'index', 'downcast', 'set'):
+            _down(tree[1], ops + ['projection'] if t == 'index' else ops, consumer)
+
+    for c in dg.calls:
+        if c in lanes or not c.callee:
+            continue
+        for a in c.args:
+            _down(dof.of_operand(a), [], flow.short(c.callee))
+    raw = []
+    for c in lanes:
+        tr = dof.of_operand(c.args[0]) if c.args else ('local', -1)
+        txt = flow.render(tr)
+        pure = 'arg:embedding' in txt and not any(x[0] in ('bin', 'un', 'cast') or (x[0] == 'call' and re.match(r'^(f32|f64|core::f32|std::f32)::', flow.short(x[1]) or '')) for x in flow.walk(tr))
+        if not pure:
+            raw.append((c, txt))
+    unmixed = [c for c in lanes if id(c) not in clean and not any(l_[0] is c for l_ in lossy)]
+    ctx.inst(rid, dg.short, 'every lane of the payload enters the digest with all 32 bits', bool(lanes) and not lossy and not raw and not unmixed,
+             ('the lane read at %s reaches %s through `%s`: the bits it drops are not part of the digest, so payloads that differ only there pass embedding_matches_token' % (lossy[0][0].loc, lossy[0][2], lossy[0][1])) if lossy else
+             ('f32::to_bits at %s is applied to %s, not to a lane of the payload as it is' % (raw[0][0].loc, raw[0][1][:100])) if raw else
+             ('the lane read at %s does not reach a mixing call' % unmixed[0].loc) if unmixed else
+             '%d lane reads (f32::to_bits of payload lanes), each reaches its mixing call through widening / << 32 / | only' % len(lanes))
 
 
 
@@ -169,6 +226,25 @@ def run(ctx, prog):
     want = ['tiered_engine::TieredEngine::knn_search_batch_with_ef_detailed_scoped', 'tiered_engine::TieredEngine::knn_search_with_ef_detailed_scoped',
             'tiered_engine::TieredEngine::knn_search_with_timeouts_with_ef_scoped']
     ctx.inst('C04.R1', 'HotTier::knn_search*', 'called only from the three search entry points', hk == want, 'callers: %s' % hk)
+    # who may read the unvalidated copies at all: the accessors in SOURCES hand out cache / mirror payloads as they are. Inside TieredEngine every such read is gated
+    # (instances above); anywhere else — the RPC layer reaches the tiers through the public TieredEngine::hot_tier() / cache_strategy() accessors — nothing is, so a
+    # payload read there is served whatever the canonical store says (stale after a bulk load that bypasses the mirror, or after a poke). The accessors' own modules
+    # delegate among themselves (get → get_with_coherence, the strategy wrappers).
+    from kvstatic.facts import strip_generics as _sg
+    def _is_source(c_):
+        return bool(c_.callee) and (c_.is_(*SOURCES) or bool(c_.orig and any(c_.orig.endswith(s_) for s_ in SOURCES)))
+    home = set(b.file for b in prog.bodies.values() if any(_sg(b.id).endswith('::' + s_) or _sg(b.id).endswith(s_.replace('::', '>::')) for s_ in SOURCES))
+    foreign = [c for c in prog.all_calls() if _is_source(c) and 'tiered_engine::TieredEngine::' not in c.body.id and c.body.file not in home]
+    ctx.floor('C04.R1', 'modules defining the cache / mirror accessors', len(home), 2, 'hot_tier.rs, cache_strategy.rs')
+    if not foreign:
+        ctx.inst('C04.R1', 'cache / mirror accessors', 'read only inside TieredEngine (gated above) and by their own modules', True,
+                 'no call of %s outside tiered_engine::TieredEngine and %s' % (', '.join(s_.split('::')[-1] for s_ in SOURCES), sorted(home)))
+    for c in foreign:
+        fn_ = c.body.short.split('::{')[0]
+        ctx.inst('C04.R1', fn_, '%s read outside the engine\'s validated read paths' % flow.short(c.orig or c.callee), False,
+                 '%s calls %s at %s: the value comes from the cache / recent-write mirror without the canonical token + digest check (canonical_vector_state), which only the '
+                 'TieredEngine read paths apply — after a bulk load that bypasses the mirror, or with a stale / poked entry, it is not the canonical latest version'
+                 % (fn_, flow.short(c.orig or c.callee), c.loc))
     fh = ctx.body('C04.R1', 'TieredEngine::filter_hot_knn_results_to_canonical')
     cl = [x for x in prog.family(fh) if x.kind == 'Closure' and x.calls_to('TieredEngine::canonical_vector_state')]
     okf = False
@@ -221,6 +297,23 @@ def run(ctx, prog):
     alts = [flow.render(a) for a in flow.top_alternatives(flow.Origin(gm).of_local(0))]
     ok = all(re.search(r'^HnswBackend::fetch_metadata\(|^option::Option::None\{\}$|^option::Option::Some\{HnswBackend::fetch_metadata\(', a) for a in alts)
     ctx.inst('C04.R2', gm.short, 'metadata answered from the canonical store only', ok, 'returns %s' % alts)
+    # not-found is an answer too, and only the canonical store can give it: every return lies behind the canonical fetch, and a None the function builds itself lies
+    # behind the None edge of that fetch (a gate in front of it — breaker open, not resident, rate limited — answers "no such document" for documents that exist)
+    fm = gm.calls_to('HnswBackend::fetch_metadata')
+    if not fm:
+        ctx.missing('C04.R2', 'TieredEngine::get_metadata: call of HnswBackend::fetch_metadata')
+    else:
+        wo = gm.reach([0], avoid_blocks=[c.bb for c in fm]) | {0}
+        early = [x for x in gm.return_blocks() if x in wo]
+        none_e = [e for c in fm for e in (flow.outcome_edges(gm, c)[1] or [])]
+        own_none = [i for i, blk in enumerate(gm.blocks) if i in gm.live_blocks() for st in blk['s'] if st.get('rv', {}).get('k') == 'agg' and st['rv'].get('variant') == 'None'
+                    and st['pl']['l'] == 0 and not st['pl'].get('p')]
+        ungated = [x for x in own_none if x in (gm.reach([0], avoid_edges=none_e) | {0})]
+        bad_nf = early or ungated
+        ctx.inst('C04.R2', gm.short, 'not-found is answered only after the canonical store said so', not bad_nf,
+                 ('a return is reachable without asking HnswBackend::fetch_metadata: %s' % rt.path_witness(gm, rt.find_path(gm, [0], early, avoid_blocks=[c.bb for c in fm]) or [])[:6]) if early else
+                 ('None is returned at %s on a path that does not cross the None edge of fetch_metadata' % gm.loc_of(ungated[0])) if ungated else
+                 'every return is behind fetch_metadata; %d own None answer(s), all behind its None edge' % len(own_none))
     ex = ctx.body('C04.R2', 'TieredEngine::exists')
     r = flow.render(flow.Origin(ex).of_local(0))
     ctx.inst('C04.R2', ex.short, 'existence answered from the canonical token only', bool(re.match(r'^Option::is_some\(HnswBackend::current_coherence_token\(', r)), 'returns %s' % r[:100])
@@ -410,6 +503,30 @@ def run(ctx, prog):
              'with both canonical components missing the repair insert is %s (version-0 edges: %d)' % (
                  'reachable for an entry that mirrors a canonical version: a delete that completed while the drain held the entry is undone' if not ok_del
                  else 'reachable only for an entry whose token version is 0', len(v0_e)))
+    # … and that repair is the ONLY canonical mutation a drain performs. Census by effect, not by name: every call in the function (and its closures) whose callee may,
+    # transitively, take the canonical document store exclusively or append to the log must be one of the repair inserts decided above. Anything else — "healing" the
+    # canonical metadata from the mirror, deleting what the mirror no longer has — makes the mirror's content durable and visible to reads: a drain then changes what
+    # get_metadata / query return and what restart recovers, with stale or poked mirror entries included
+    from kvstatic.locks import LockModel as _LM5
+    from kvstatic.callgraph import sync_calls as _sc5, reachable_bodies as _rb5
+    lm5 = _LM5(prog)
+    writers5 = set(bid for bid, acqs in lm5.body_acqs.items() if any(a.cls == 'HnswBackend.doc_store' and a.mode in ('W', 'U') for a in acqs.values()))
+    writers5 |= set(c.body.id for c in prog.callers_of('WalWriter::append', 'WalWriter::append_batch'))
+    ctx.floor('C04.R5', 'functions that write the canonical store or the log directly', len(writers5), 4, 'the four backend mutators at least')
+    muts5 = []
+    for b5 in prog.family(rc):
+        for bb5, cbs in sorted(_sc5(prog).get(b5.id, {}).items()):
+            c5 = b5.call_at(bb5)
+            if c5 is None or any(c5 is x for x in ci):
+                continue
+            hit = [sorted(_rb5(prog, [cb.id]) & writers5) for cb in cbs if cb.root != rc.root]
+            hit = [h for h in hit if h]
+            if hit:
+                muts5.append((b5, c5, prog.bodies[hit[0][0]].short))
+    ctx.inst('C04.R5', rc.short, 'the repair insert is the only canonical mutation of a drain', bool(ci) and not muts5,
+             ('%s at %s may change the canonical store (%s takes the document store exclusively / appends to the log) outside the missing-record repair: the drain '
+              'writes mirror content over a present canonical record, durably' % (flow.short(muts5[0][1].callee or '?'), muts5[0][1].loc, muts5[0][2])) if muts5 else
+             'calls that may write the canonical store: %d (the repair insert%s)' % (len(ci), 's' if len(ci) != 1 else ''))
     srcs = [flow.render(flow.Origin(rc).of_operand(a)) for a in (ci[0].args[2:4] if ci else [])]
     # ------------------------------------------------------------------ R6 positional agreement of bulk answers
     ctx.rule('C04.R6', 'a bulk lookup answers position by position: the ids handed to the canonical bulk fetch are the pending positions mapped through doc_ids, '
